@@ -524,10 +524,11 @@ def getMove [DecidableEq M] (g : Game P M) (cfg : Cfg) (o : Oracle M) (p : P) (s
 def kids (g : Game P M) (p : P) : List (M × P) :=
   (g.allMoves p).filterMap (fun m => match g.apply p m with | .ok c => some (m, c) | .error _ => none)
 
-/-- maximum of `f` over a list, `lo` for the empty list -/
+/-- maximum of `f` over a list, `lo` for the empty list only -/
 def maxOver {α : Type} (f : α → Int) (lo : Int) : List α → Int
   | [] => lo
-  | x :: xs => max (f x) (maxOver f lo xs)
+  | [x] => f x
+  | x :: y :: xs => max (f x) (maxOver f lo (y :: xs))
 
 /-- depth-limited negamax with evaluation `g.eval` at the horizon and at finished games.  A position with
 no legal move that is not over has value `MinEval - 1` (does not occur in Tak). -/
